@@ -91,6 +91,7 @@ type caseIn struct {
 
 type accObs struct {
 	Id   int    `json:"id"`
+	Seq0 uint64 `json:"seq0"` // sequence before the tx
 	DSeq int64  `json:"dseq"`
 	DBal string `json:"dbal"`
 }
@@ -233,6 +234,7 @@ func (w *world) build(n node, top bool, b *built) (sdk.Msg, error) {
 				return nil, err
 			}
 			msg.Data = any
+			msg.Hash = msg.AsTransaction().Hash().Hex()
 		}
 		msg.From = ""
 		b.hashes = append(b.hashes, msg.AsTransaction().Hash().Hex())
@@ -395,7 +397,7 @@ func (w *world) runTx(tx txIn) txObs {
 	}
 	after := w.snapshot()
 	for i := range w.eths {
-		o.Eth = append(o.Eth, accObs{Id: idEth0 + i, DSeq: int64(after.seq[i]) - int64(before.seq[i]), DBal: after.bal[i].Sub(before.bal[i]).String()})
+		o.Eth = append(o.Eth, accObs{Id: idEth0 + i, Seq0: before.seq[i], DSeq: int64(after.seq[i]) - int64(before.seq[i]), DBal: after.bal[i].Sub(before.bal[i]).String()})
 	}
 	o.DFee = after.fee.Sub(before.fee).String()
 	c.EndBlock()
